@@ -567,40 +567,39 @@ func vRunConnScenario(sc *vScenario) (out []vOutEvent, info map[string]interface
 	s.Run()
 
 	// quiescent point: nothing is enabled any more
-	s.mu.Lock()
-	for _, a := range s.list {
-		if a.state == vStParked && !a.daemon {
-			kind, need := "other", 0
-			switch a.gate.pt {
-			case vpWaitRead, vpWaitReadT:
-				kind, need = "read", int(a.gate.a)
-				if r.inUntil && a.name == "reader" {
-					// a line reader waits for more input: legitimate only if no delimiter is buffered
-					kind, need = "until", 0
-					for _, b := range vReadable(c.inputBuffer) {
-						if b == '\n' {
-							need = 1
-						}
+	for _, a := range s.blockedAtEnd {
+		kind, need := "other", 0
+		switch a.gate.pt {
+		case vpWaitRead, vpWaitReadT:
+			kind, need = "read", int(a.gate.a)
+			if r.inUntil && a.name == "reader" {
+				// a line reader waits for more input: legitimate only if no delimiter is buffered
+				kind, need = "until", 0
+				for _, b := range vReadable(c.inputBuffer) {
+					if b == '\n' {
+						need = 1
 					}
 				}
-			case vpWaitWrite, vpWaitWriteT:
-				kind, need = "write", r.outLen()
-			case vpStopSpin, vpOpInuseSpin, vpOpUnusedSpin:
-				kind = "spin"
-			case vpTimerDrainR, vpTimerDrainW:
-				kind = "timerdrain"
-			case vpxBlockUntil:
-				kind = "harness"
 			}
-			incb := 0
-			if strings.HasPrefix(a.name, "task") || strings.HasPrefix(a.name, "hup") {
-				incb = 1
-			}
-			r.out = append(r.out, vOutEvent{E: "Blocked", G: a.name, K: kind, N: need, M: incb})
+		case vpWaitWrite, vpWaitWriteT:
+			kind, need = "write", r.outLen()
+		case vpStopSpin, vpOpInuseSpin, vpOpUnusedSpin:
+			kind = "spin"
+		case vpTimerDrainR, vpTimerDrainW:
+			kind = "timerdrain"
+		case vpxBlockUntil:
+			kind = "harness"
 		}
+		incb := 0
+		if strings.HasPrefix(a.name, "task") || strings.HasPrefix(a.name, "hup") {
+			incb = 1
+		}
+		r.out = append(r.out, vOutEvent{E: "Blocked", G: a.name, K: kind, N: need, M: incb})
 	}
-	s.mu.Unlock()
 	blocked := ""
+	for _, a := range s.blockedAtEnd {
+		blocked += fmt.Sprintf("%s@%d ", a.name, a.gate.pt)
+	}
 	inlen := r.inLen()
 	dl := 0
 	if s.deadlock {
